@@ -35,7 +35,10 @@ var hookSpecs = []hookSpec{
 		"GetBinlogs", "getRunningQueryIDs", "ReenableEvents", "GetExternalReplicationSources",
 		"GetDiskUsage", "IsFileSystemReadonly", "GetDaemonStartTime", "GetCrashRecoveryTime",
 		"IsWaitingSemiSyncAck", "GetStartupTime", "UpdateExternalCAFile", "SetReadOnlyWithForce",
+		// inner cut of the four query funnels (funcRewrites below): logging with a package-level regexp
+		"traceQuery",
 	}},
+	{"internal/mysql/node.go", "", []string{"Mogrify"}},
 	{"internal/util/util.go", "", []string{"RunParallel"}},
 	{"internal/dcs/zk.go", "", []string{"retry"}},
 	{"internal/app/util.go", "", []string{"getNodeStatesInParallel", "findMostRecentNodeAndDetectSplitbrain"}},
@@ -87,6 +90,27 @@ var textRewrites = []textRewrite{
 	{"internal/dcs/zk.go", "json.Marshal(", "verifJSONMarshal(", "json.Marshal"},
 	{"internal/dcs/zk.go", "json.Unmarshal(", "verifJSONUnmarshal(", ""},
 	{"internal/dcs/zk.go", "z.closeTimer.Stop()", "verifnd.StopTimer(z.closeTimer)", ""},
+}
+
+// rewrites confined to the body of one function (recv.name): the inner cut of the query
+// funnels of *Node. With the funnel's own hook set (every harness built on the fleet model)
+// the rewritten code is never reached; with the hook nil the funnel body runs for real and
+// only the sqlx calls, the context and the rows cursor are replaced (harness/mysql/zz_verif_funnels.go).
+type funcRewrite struct {
+	File, Func string
+	From, To   string
+}
+
+var funcRewrites = []funcRewrite{
+	{"internal/mysql/node.go", "Node.execWithTimeout", "context.WithTimeout(context.Background(), timeout)", "verifCtxWithTimeout(timeout)"},
+	{"internal/mysql/node.go", "Node.execWithTimeout", "db.ExecContext(ctx, n.getQuery(querySetLockTimeout), lockTimeout)", "verifDBExec(n, db, ctx, querySetLockTimeout, lockTimeout)"},
+	{"internal/mysql/node.go", "Node.execWithTimeout", "db.NamedExecContext(ctx, query, arg)", "verifDBNamedExec(n, db, ctx, queryName, arg)"},
+	{"internal/mysql/node.go", "Node.execMogrifyWithTimeout", "context.WithTimeout(context.Background(), timeout)", "verifCtxWithTimeout(timeout)"},
+	{"internal/mysql/node.go", "Node.execMogrifyWithTimeout", "db.ExecContext(ctx, query)", "verifDBNamedExec(n, db, ctx, queryName, arg)"},
+	{"internal/mysql/node.go", "Node.queryRowWithTimeout", "context.WithTimeout(context.Background(), timeout)", "verifCtxWithTimeout(timeout)"},
+	{"internal/mysql/node.go", "Node.queryRowWithTimeout", "db.NamedQueryContext(ctx, query, arg)", "verifDBQueryRow(n, db, ctx, queryName, arg, result)"},
+	{"internal/mysql/node.go", "Node.queryRowMogrifyWithTimeout", "context.WithTimeout(context.Background(), timeout)", "verifCtxWithTimeout(timeout)"},
+	{"internal/mysql/node.go", "Node.queryRowMogrifyWithTimeout", "db.NamedQueryContext(ctx, query, arg)", "verifDBQueryRow(n, db, ctx, queryName, arg, result)"},
 }
 
 type splice struct {
@@ -234,6 +258,22 @@ func instrumentRepo() (map[string][]byte, *instrInfo, error) {
 				}
 			}
 			key := recv + "." + fd.Name.Name
+			for fi := range funcRewrites {
+				fr := &funcRewrites[fi]
+				if fr.File != rel || fr.Func != key && fr.Func != strings.TrimPrefix(key, ".") {
+					continue
+				}
+				b0, b1 := tf.Offset(fd.Body.Lbrace), tf.Offset(fd.Body.Rbrace)
+				k := bytes.Index(src[b0:b1], []byte(fr.From))
+				if k < 0 {
+					return nil, nil, fmt.Errorf("instrument: pattern %q not found in %s of %s (fail closed)", fr.From, key, rel)
+				}
+				if bytes.Index(src[b0+k+len(fr.From):b1], []byte(fr.From)) >= 0 {
+					return nil, nil, fmt.Errorf("instrument: pattern %q occurs twice in %s of %s (fail closed)", fr.From, key, rel)
+				}
+				sp = append(sp, splice{off: b0 + k, del: len(fr.From), text: fr.To})
+				info.Rewrites[key+": "+fr.From]++
+			}
 			if _, want := wantHooks[rel][key]; !want {
 				continue
 			}
